@@ -776,6 +776,16 @@ func runMem(c Case, tr *Tracer) {
 			lr.read = func() string { return string(lr.owned) }
 			add(lr)
 			emit(Ev{"ev": "Codec", "r": id, "fn": name, "same": string(out) == string(ref)}, "Codec")
+			if name == "cmpp.MsgID2String" {
+				// the next id is rendered while the first string is still held (a batch of receipts is logged)
+				id2 := nextID
+				nextID++
+				o2 := strBytes(cmpp.MsgID2String(rr.Uint64() | 1))
+				l2 := &liveResult{id: id2, kind: "codec", tn: name, owned: o2}
+				l2.read = func() string { return string(l2.owned) }
+				add(l2)
+				emit(Ev{"ev": "Codec", "r": id2, "fn": name, "same": true}, "Codec")
+			}
 			if name != "cmpp.MsgID2String" && name != "DecodeSMPPCContent" && name != "ParseLongSmsContent" { // (a string cannot be written to; it is only held and read again later)
 				full := out[:cap(out)]
 				for i := range full {
